@@ -90,6 +90,8 @@ class Peer:
         k = L
         if short and L > 1 and self.short_budget > 0:
             r = reps(L)
+            if self.k_only:
+                r = sorted({x for x in self.k_only if x < L} | {L})
             k = r[self.ctx.choose(len(r), 'bytes accepted by send')]
             if k < L:
                 self.short_budget -= 1
@@ -100,6 +102,7 @@ class Peer:
         return k
 
     short_budget = 0
+    k_only = None
     frag_budget = None      # None: every recv may be short; k: at most k short recvs
 
 
@@ -379,10 +382,13 @@ def h_lifecycle(ctx, mods, shape):
     """close is idempotent (also when shutdown/wait_closed raises OSError) and a closed transport can connect again"""
     clock = env.Clock(0)
     created = []
+    greetings = {}
+    state = {}
 
     def peer_factory():
         p = Peer(ctx, clock)
-        p.arrived = as_sym(ctx.bytes('greeting', 2))
+        p.arrived = as_sym(ctx.bytes('greeting', 5))
+        greetings[id(p)] = p.arrived      # more than one read consumes: the rest is still unread at close()
         created.append(p)
         return p
 
@@ -406,7 +412,10 @@ def h_lifecycle(ctx, mods, shape):
                     ctx.check(wr.closed, 'close() closes the stream writer')
             elif step == 'read':
                 d = drv.call(tr.bulk_read, 2, 1)
-                ctx.check(as_sym(d) == created[-1].delivered[-len(d):] and len(d) >= 1, "a read after (re)connect returns the new peer's bytes")
+                nread = state.setdefault(id(created[-1]), 0)
+                ctx.check(len(d) >= 1 and len(d) <= 2, 'bulk_read returns 1..2 bytes')
+                ctx.check(as_sym(d) == greetings[id(created[-1])][nread:nread + len(d)], "a read after (re)connect returns the current peer's bytes, from the start of that connection")
+                state[id(created[-1])] = nread + len(d)
             elif step == 'write_none':
                 k = drv.call(tr.bulk_write, b'ping', None)
                 ctx.check(k == 4 and created[-1].received[-4:] == b'ping', 'bulk_write without a timeout delivers to the current peer')
@@ -475,6 +484,7 @@ def h_write(ctx, mods, shape):
     def peer_factory():
         p = Peer(ctx, clock)
         p.short_budget = shape.get('nshort', 1)
+        p.k_only = shape.get('k_only')
         peers.append(p)
         return p
 
@@ -533,4 +543,6 @@ def shapes(tier, seed):
             out.append({'h': 'write', 'impl': impl, 'n': n_, 'nshort': 1})
             out.append({'h': 'write', 'impl': impl, 'n': n_, 'nshort': 2})
         out.append({'h': 'write', 'impl': impl, 'n': 3, 'nshort': 0, 'stalled': True})
+        out.append({'h': 'write', 'impl': impl, 'n': 40, 'nshort': 3, 'max_paths': 200000})
+        out.append({'h': 'write', 'impl': impl, 'n': 40, 'nshort': 4, 'max_paths': 400000, 'k_only': [1, 2]})
     return out
